@@ -3,3 +3,8 @@
 LEAN_EXPORT double statrs_log1p(double x) { return log1p(x); }
 LEAN_EXPORT double statrs_expm1(double x) { return expm1(x); }
 LEAN_EXPORT double statrs_fmod(double x, double y) { return fmod(x, y); }
+#include <string.h>
+#include <stdint.h>
+/* raw bit pattern (Lean's Float.toBits canonicalises NaN) */
+LEAN_EXPORT uint64_t statrs_rawbits(double x) { uint64_t u; memcpy(&u, &x, 8); return u; }
+LEAN_EXPORT double statrs_ofrawbits(uint64_t u) { double x; memcpy(&x, &u, 8); return x; }
